@@ -137,7 +137,7 @@ func findConnect(p *Prog) *connectAnchors {
 		a.Errs = append(a.Errs, "package iobroker not found")
 		return a
 	}
-	bt, _ := pk.Types.Scope().Lookup("Broker").(*types.TypeName)
+	bt, _ := lookupObj(pk, "Broker").(*types.TypeName)
 	if nil == bt {
 		a.Errs = append(a.Errs, "type Broker not found")
 		return a
@@ -221,6 +221,14 @@ func findConnect(p *Prog) *connectAnchors {
 		case *types.Signature:
 			if nil == a.Proxy {
 				a.Proxy = pa
+			}
+		case *types.Interface:
+			/* The proxy as a one-method value (proxier{proxy(ctx, sl) error})
+			instead of a function value. */
+			if nil == a.Proxy && 1 == t.NumMethods() && !typeIs(pa.Type(), "context", "Context") {
+				if sig, isSig := t.Method(0).Type().(*types.Signature); isSig && 1 == sig.Results().Len() && isErrorType(sig.Results().At(0).Type()) {
+					a.Proxy = pa
+				}
 			}
 		}
 	}
@@ -495,7 +503,7 @@ func iobConst(p *Prog, name string) (string, bool) {
 	if nil == pk {
 		return "", false
 	}
-	c, ok := pk.Types.Scope().Lookup(name).(*types.Const)
+	c, ok := lookupObj(pk, name).(*types.Const)
 	if !ok {
 		return "", false
 	}
